@@ -232,6 +232,12 @@ def gen_lqr_case(rng, big=True, small=None, mpc=False):
 T_CLK = 7
 
 
+def neutral(c):
+    """switch off the randomly drawn extras so that a corpus case varies exactly what it says it varies"""
+    c.update(qstyle=None, signpat=None, dup=False, subclass=None, defdt=None, tail=True)
+    return c
+
+
 def corpus():
     """deterministic corner corpus (independent of VERIF_SEED), run before the seeded cases: every system kind with a
     history that contains every kind of operation, the shape corners, mixed-regime batches, extreme magnitudes"""
@@ -255,7 +261,7 @@ def corpus():
          ["solve", "none", {"style": "kw"}]])
     for sysk in ("lti", "lti_shared", "ltv", "ltvc"):
         for (Bn, T, ns, nc) in ((3, 1, 1, 1), (2, 3, 1, 2), (1, 5, 3, 2), (2, 20, 6, 6)):
-            c = gen_lqr_case(rng, small=(Bn, T, ns, nc))
+            c = neutral(gen_lqr_case(rng, small=(Bn, T, ns, nc)))
             c.update(sys=sysk, dtype="float64", c1="rand", extra=0 if T % 2 else 2, dt=1, mixed=Bn > 1, qexpand=True,
                      rho=min(c["rho"], 1.05) if T > 8 else c["rho"])
             c["ops"] = full_ops(c)
@@ -263,7 +269,7 @@ def corpus():
     # extreme-but-valid magnitudes and conditioning, one block at a time
     for k, v in (("qscale", 1e-6), ("qscale", 1e6), ("pscale", 1e8), ("x0scale", 1e6), ("cscale", 1e5), ("bscale", 1e-4),
                  ("bscale", 1e3), ("condQ", 1e6), ("rho", 3.0), ("rho", 0.0)):
-        c = gen_lqr_case(rng, small=(2, 4, 3, 2))
+        c = neutral(gen_lqr_case(rng, small=(2, 4, 3, 2)))
         c.update(sys="ltv", dtype="float64", c1="rand", mixed=False, condQ=10, qscale=1, pscale=1, x0scale=1, cscale=1, bscale=1,
                  rho=0.9, astyle="rand", bstyle="full", dt=1)
         c[k] = v
@@ -272,13 +278,13 @@ def corpus():
         out.append(c)
     # the exact guard of the code: Q_t singular (PSD) with PD input block, cross terms, every system kind
     for sysk, sh in (("lti", (2, 6, 3, 2)), ("ltv", (3, 4, 2, 1)), ("ltvc", (1, 10, 4, 3)), ("lti_shared", (2, 3, 1, 2))):
-        c = gen_lqr_case(rng, small=sh)
+        c = neutral(gen_lqr_case(rng, small=sh))
         c.update(sys=sysk, dtype="float64", c1="rand", mixed=False, condQ=10, qscale=1, pscale=1, x0scale=1, cscale=1, bscale=1, rho=0.9,
                  astyle="rand", bstyle="full", dt=1, qstyle="psd")
         c["ops"] = [["solve", "none", {}], ["clock", 5, "set"], ["solve", ["rand", 30.0, 3], {"style": "kw"}], ["solve", "prev", {"prev_obj": True}]]
         out.append(c)
     # float32 with views and a mixed batch
-    c = gen_lqr_case(rng, small=(3, 6, 2, 2))
+    c = neutral(gen_lqr_case(rng, small=(3, 6, 2, 2)))
     c.update(sys="lti", dtype="float32", condQ=10, qscale=1, bscale=1, rho=0.9, pscale=1, x0scale=1, cscale=1, mixed=True, dt=1)
     c["ops"] = full_ops(c)
     out.append(c)
@@ -289,7 +295,7 @@ def corpus():
         for T in (1, 2, 3):
             for ns in (1, 2, 3):
                 for nc in (1, 2, 3):
-                    c = gen_lqr_case(rng, small=(Bn, T, ns, nc))
+                    c = neutral(gen_lqr_case(rng, small=(Bn, T, ns, nc)))
                     c.update(sys=("lti", "ltv", "lti_shared", "ltvc")[k % 4], dtype="float64", c1="rand", mixed=Bn > 1 and k % 2 == 0, dt=1,
                              condQ=10, qscale=1, rho=0.9)
                     c["ops"] = [["solve", ["rand", 1.0, 1], {"style": STYLES[k % len(STYLES)], "xview": XVIEWS[k % 4], "uview": UVIEWS[k % 5]}],
@@ -300,7 +306,7 @@ def corpus():
     # LARGE sizes around 2^k (batch and horizon), split-consistency: item vs batch (first / middle / LAST), tail vs full
     for sh, sysk in (((17, 3, 2, 1), "lti"), ((33, 2, 1, 2), "ltv"), ((65, 2, 2, 2), "lti_shared"), ((64, 1, 3, 1), "ltvc"),
                      ((2, 31, 2, 1), "lti"), ((1, 33, 2, 2), "ltv"), ((2, 64, 1, 1), "ltvc"), ((1, 65, 2, 1), "lti")):
-        c = gen_lqr_case(rng, small=sh)
+        c = neutral(gen_lqr_case(rng, small=sh))
         c.update(sys=sysk, dtype="float64", c1="rand", mixed=False, dup=False, condQ=10, qscale=1, pscale=1, x0scale=1, cscale=1, bscale=1,
                  rho=0.9 if sh[1] > 8 else 1.05, astyle="rand", bstyle="full", dt=1, tail=True, extra=1, qstyle=None, signpat=None,
                  subclass=None, defdt=None)
@@ -309,7 +315,7 @@ def corpus():
     # EXACT TIES: equal eigenvalues, exactly singular state block, x_init = p = 0 exactly, identical batch items, n_state = n_ctrl
     for k2, (qs, x0s, ps, dup) in enumerate((("eye", 1, 1, False), ("psd0", 1, 1, False), ("eye", 0, 0, True), (None, 0, 1, True),
                                              ("psd0", 0, 0, False), (None, 1, 0, True))):
-        c = gen_lqr_case(rng, small=(3, 4, 2, 2))
+        c = neutral(gen_lqr_case(rng, small=(3, 4, 2, 2)))
         c.update(sys=("lti", "ltv", "ltvc")[k2 % 3], dtype="float64", c1="rand" if k2 % 2 else "none", mixed=False, dup=dup, condQ=10, qscale=1,
                  pscale=ps, x0scale=x0s, cscale=1, bscale=1, rho=0.9, astyle="rand", bstyle="full", dt=1, tail=True, qstyle=qs, signpat=None,
                  subclass=None, defdt=None)
@@ -319,7 +325,7 @@ def corpus():
         out.append(c)
     # SIGN patterns of p, x_init, c1, u_traj (non-negative / non-positive / non-positive with exact zeros), sign of dt and of the clock
     for k2, sp in enumerate(("nonneg", "nonpos", "nonpos0")):
-        c = gen_lqr_case(rng, small=(2, 5, 3, 2))
+        c = neutral(gen_lqr_case(rng, small=(2, 5, 3, 2)))
         c.update(sys=("lti", "ltv", "lti_shared")[k2], dtype="float64", c1="rand", mixed=False, dup=False, condQ=10, qscale=1, pscale=1, x0scale=1,
                  cscale=1, bscale=1, rho=0.9, astyle="rand", bstyle="full", dt=1, tail=False, qstyle=None, signpat=sp, subclass=None, defdt=None)
         c["ops"] = [["clock", -3, "set"], ["solve", "none", {"dt": -1 if k2 != 1 else None}], ["clock", -T_CLK, "reset"],
@@ -328,14 +334,14 @@ def corpus():
     # USER SUBCLASSES of LTI / LQR (own state_transition, own c1) and default dtype x operand dtype
     for k2, (sub, dty, dd) in enumerate((("MyLTI", "float64", None), ("ShiftLTI", "float64", None), ("ShiftLTI", "float32", "float64"),
                                          (None, "float32", "float64"), ("MyLTI", "float32", "float64"))):
-        c = gen_lqr_case(rng, small=(2, 4, 2, 2))
+        c = neutral(gen_lqr_case(rng, small=(2, 4, 2, 2)))
         c.update(sys="lti", dtype=dty, c1="rand", mixed=False, dup=False, condQ=10, qscale=1, pscale=1, x0scale=1, cscale=1, bscale=1, rho=0.9,
                  astyle="rand", bstyle="full", dt=1, tail=True, qstyle=None, signpat=None, subclass=sub, defdt=dd)
         c["ops"] = [["solve", "none", {}], ["mutate", -1.0, 2.0, 0.75], ["solve", ["rand", 1.0, 1], {"style": "kw"}], ["copy", "deepcopy"],
                     ["solve", "zeros", {"grad": "no_grad"}]]
         out.append(c)
     # per-call dt on LTI systems
-    c = gen_lqr_case(rng, small=(2, 5, 2, 2))
+    c = neutral(gen_lqr_case(rng, small=(2, 5, 2, 2)))
     c.update(sys="lti", dtype="float64", dt=1, mixed=False)
     c["ops"] = [["solve", "none", {"dt": 2}], ["solve", ["rand", 1.0, 1], {"dt": 0.01}], ["solve", "prev", {"dt": 1, "prev_obj": True}],
                 ["solve", "zeros", {"dt": "tensor:2.0", "style": "kw"}]]
@@ -1762,16 +1768,16 @@ def run(ctx: Ctx):
         if ctx.quick and rng.random() < 0.75:       # (the corpus already sweeps all 81 extents in {1,2,3}^4)
             continue
         cases.append(gen_lqr_case(rng, small=sh))
-    for _ in range(ctx.pick(70, 2000)):
+    for _ in range(ctx.pick(55, 2000)):
         cases.append(gen_lqr_case(rng, big=True))
-    for _ in range(ctx.pick(6, 150)):
+    for _ in range(ctx.pick(4, 150)):
         cases.append(gen_big_case(rng))
-    for _ in range(ctx.pick(16, 300)):
+    for _ in range(ctx.pick(12, 300)):
         cases.append(gen_mpc_linear_case(rng, big=not ctx.quick))
-    for _ in range(ctx.pick(14, 400)):
+    for _ in range(ctx.pick(10, 400)):
         cases.append(gen_mpc_nls_case(rng, big=not ctx.quick))
     run_cases(ctx, cases)
-    run_stepper(ctx, ctx.pick(60, 1000))
+    run_stepper(ctx, ctx.pick(40, 1000))
     ctx.notes.append("largest observed/allowed ratios: " + ", ".join(f"{k}={v:.3g}" for k, v in sorted(STAT.items())))
 
 
